@@ -34,7 +34,7 @@ def cleanup():
 
 def write_instance(text, name='inst.txt'):
     path = os.path.join(workdir(), name)
-    with open(path, 'w') as f:
+    with open(path, 'w', newline='') as f:      # line ends exactly as rendered (\n or \r\n)
         f.write(text)
     return path
 
